@@ -228,12 +228,20 @@ class PEval:
         return False
 
     # -- statements ----------------------------------------------------
-    def specialise(self, stmts: List[ast.stmt], env: Env) -> List[ast.stmt]:
+    def specialise(self, stmts: List[ast.stmt], env: Env,
+                   pinned: Optional[Iterable[str]] = None) -> List[ast.stmt]:
+        """``pinned`` names keep their binding across (re)assignments: used
+        to specialise w.r.t. the *result* of an assignment such as
+        ``typed = convert(raw)`` whose kind is the case being analysed."""
+        self._pinned = set(pinned or ())
         res, _ = self._block(stmts, dict(env))
+        self._pinned = set()
         return res
 
+    _pinned: Set[str] = set()
+
     def _kill(self, env: Env, names: Iterable[str]) -> None:
-        names = set(names)
+        names = set(names) - self._pinned
         if not names:
             return
         for key in list(env):
@@ -248,6 +256,8 @@ class PEval:
     def _assign(self, stmt: ast.stmt, env: Env) -> None:
         if isinstance(stmt, ast.Assign) and len(stmt.targets) == 1 and \
                 isinstance(stmt.targets[0], ast.Name):
+            if stmt.targets[0].id in self._pinned:
+                return
             v = self.value(stmt.value, env)
             self._kill(env, [stmt.targets[0].id])
             if v is not None:
@@ -255,6 +265,8 @@ class PEval:
             return
         if isinstance(stmt, ast.AnnAssign) and \
                 isinstance(stmt.target, ast.Name):
+            if stmt.target.id in self._pinned:
+                return
             v = self.value(stmt.value, env) if stmt.value is not None \
                 else None
             self._kill(env, [stmt.target.id])
